@@ -428,12 +428,21 @@ def e2e(binpath, seed, n):
             lk.append((nm, k, len(reqs)))
             reqs.append((l, [k], "new"))
         plans.append((kind, item, links, base, lk, work))
-    wires = scen.sign_all(binpath, reqs, nproc=1)
+    wires = scen.sign_all(binpath, reqs, nproc=1, tolerate=True)
     cases = []
     for kind, item, links, base, lk, work in plans:
+        if any(wires[r] is None for nm, k, r in lk):
+            raise common.Inconclusive("library refused to sign a generated link")
         files = {f"{nm}.{W.pfx(k)}.link": scen.dumps(wires[r]) for nm, k, r in lk}
-        c = scen.verify_case(wires[base], [[W.kid("ed0"), W.pub("ed0")]], files, work_files=work,
-                             meta={"kind": kind, "item": item, "links": {k: v for k, v in links.items()}})
+        meta = {"kind": kind, "item": item, "links": {k: v for k, v in links.items()}}
+        if wires[base] is not None:
+            cases.append(scen.verify_case(wires[base], [[W.kid("ed0"), W.pub("ed0")]], files, work_files=work, meta=meta))
+        else:
+            # a layout the library will not even load is not enforced: nothing to observe through this route
+            res.classes["e2e:layout_refused_when_read"] += 1
+        # the same layout never read from text: built with the public constructors, signed, handed over as a value
+        c = scen.verify_case("(built in memory)", [[W.kid("ed0"), W.pub("ed0")]], files, work_files=work, meta=dict(meta, in_memory=True))
+        c["build_in_memory"] = {"doc": reqs[base][0], "signers": ["ed0"]}
         cases.append(c)
     pat_cases = [{"op": "rules", "kind": "step", "item": scen.mk_step("x", 1, [], [], [], []), "links": {"x": scen.mk_link("x")},
                   "patterns": BAD}]
@@ -454,7 +463,10 @@ def e2e(binpath, seed, n):
         if o["runs"][0]["v"] == "panic":
             res.violate("e2e-panic", f"verification panicked: {o['runs'][0]['panic']}", c, o, None)
             continue
-        res.note([c["layout"], sorted(c["files"])], True, cls=["e2e:" + m["kind"], "e2e_reference:" + ("accept" if want else "reject"),
+        if o["runs"][0]["v"] == "build_err":
+            res.classes["e2e:in_memory_build_refused"] += 1
+            continue
+        res.note([c["layout"], sorted(c["files"]), json.dumps(m["item"], sort_keys=True)], True, cls=["e2e:" + m["kind"] + (":built_in_memory" if m.get("in_memory") else ""), "e2e_reference:" + ("accept" if want else "reject"),
                                                               "e2e_observed:" + ("accept" if got else "reject")])
         if got != want:
             why = classify(item, links, lambda p: badmap.get(p, False), got)
@@ -505,6 +517,6 @@ def main(ctx):
                      "whether a pattern is uninterpretable is observed from the implementation's matcher"],
         required=["reference:accept", "reference:reject", "rule:MATCH", "rule:CREATE", "rule:DELETE", "rule:MODIFY",
                   "rule:ALLOW", "rule:REQUIRE", "rule:DISALLOW", "match:src_prefix", "match:dst_prefix",
-                  "disallow:uninterpretable_pattern", "kind:inspection", "e2e:step", "e2e:inspection",
+                  "disallow:uninterpretable_pattern", "kind:inspection", "e2e:step", "e2e:inspection", "e2e:step:built_in_memory", "e2e:inspection:built_in_memory",
                   "e2e_reference:accept", "e2e_reference:reject", "small_scope:accept", "small_scope:reject"],
         min_evals=20000)
